@@ -164,3 +164,9 @@ package linter
 //@   prop C08
 //@   pure
 //@   ensures @has-fix-iff-replacement result <==> (warn.Suggestion.Replacement != nil)
+
+// registration: one record in the ghost log `registered` per AddChecker call (the body validates and stores the prototype)
+//@ func (*CheckerCollection).AddChecker
+//@   prop C17
+//@   trusted registry bookkeeping (panics on invalid or duplicate registrations by design)
+//@   emits registered(info)
